@@ -37,6 +37,7 @@ fn main() {
             }
         }
         "bench" => bench(),
+        "dbg" => debug_bisim(),
         "check" => {
             let id = args.get(2).cloned().unwrap_or_else(|| usage());
             let mut tier = match std::env::var("VERIF_TIER").as_deref() {
@@ -133,5 +134,35 @@ pub fn bench() {
     }
     let f = 1e6 / n as f64;
     println!("us per iteration: thread {:.1} new {:.1} setup {:.1} step(with oracles) {:.1} digest {:.1} drop {:.1}", t_thread*f, t_new * f, t_setup * f, t_step * f, t_digest * f, t_drop * f);
+    report::cleanup_scratch(&scratch);
+}
+
+#[allow(dead_code)]
+pub fn debug_bisim() {
+    use runner::*;
+    real::install_quiet_panic_hook();
+    let scratch = report::scratch_dir();
+    iosim::set_track_prefix(&scratch);
+    let scs = drivers::scenarios("C06", Tier::Quick);
+    let sc = &scs[0];
+    let scratch2 = scratch.clone();
+    let run = move |with_drop: bool, seek: Option<u64>| {
+        let scs = drivers::scenarios("C06", Tier::Quick);
+        let sc = &scs[0];
+        let scratch = scratch2.clone();
+        let path = format!("{}/dbg.db", scratch);
+        let mut r = Runner::new(&path, sc.cfg.clone()).unwrap();
+        for a in &sc.setup { r.step(a, &Oracles::NONE); }
+        if with_drop { r.step(&Action::Tx{ops: vec![refmodel::OpSpec::put(&["b"],"k0","v*8")], commit:false}, &Oracles::NONE); }
+        println!("snapshot before followup: {:?}", r.db().verif_snapshot());
+        let pos = match seek { Some(p) => { println!("seek ok {}", fresh::rs_seek(p)); p } None => fresh::rs_probe() };
+        r.step(&Action::Tx{ops: vec![refmodel::OpSpec::put(&["b"],"k0","v*8")], commit:true}, &Oracles::NONE);
+        println!("snapshot after: {:?}", r.db().verif_snapshot());
+        (r.file_bytes(), pos)
+    };
+    let run2 = run.clone();
+    let (a, pos) = fresh::on_fresh_thread(move || run(true, None)).unwrap(); let (b, _) = fresh::on_fresh_thread(move || run2(false, Some(pos))).unwrap();
+    println!("len {} {}", a.len(), b.len());
+    for (i,(x,y)) in a.chunks(1024).zip(b.chunks(1024)).enumerate() { if x!=y { println!("page {} differs", i); } }
     report::cleanup_scratch(&scratch);
 }
